@@ -868,7 +868,7 @@ theorem step_unquoted (st : PState) (k v : Str) (hk : '=' ∉ k) (hs : ¬ Skippe
   rw [step_kv jl st k v hk hs]
   have hok : keyOk (Text.stripU k) = true := by rcases hkey with h | h <;> rw [h] <;> decide
   have hl : ¬ (Text.stripU v).length < 2 := by omega
-  simp only [dispatch, hok, Bool.not_true, Bool.false_eq_true, if_false, hkey, if_true, hl, hq]
+  simp only [dispatch, dQuoted, hok, Bool.not_true, Bool.false_eq_true, if_false, hkey, if_true, hl, hq]
 
 theorem dispatch_hostKeys (st : PState) (line val : Str) :
     dispatch jl st line kHostKeys val = .ok { st with pol := { st.pol with hostKeys := some (PolicyFile.parseAlgs val) } } := by
@@ -894,35 +894,35 @@ theorem dispatch_version (st : PState) (line val : Str) :
 theorem dispatch_name (st : PState) (line val : Str) (hlen : 2 ≤ val.length) (h1 : val.head? = some '"') (h2 : val.getLast? = some '"') :
     dispatch jl st line kName val = .ok { st with name := some (unquote val) } := by
   have hl : ¬ val.length < 2 := by omega
-  simp +decide only [dispatch, if_true, if_false, hl, h1, h2]
+  simp +decide only [dispatch, dQuoted, if_true, if_false, hl, h1, h2]
 theorem dispatch_banner (st : PState) (line val : Str) (hlen : 2 ≤ val.length) (h1 : val.head? = some '"') (h2 : val.getLast? = some '"') :
     dispatch jl st line kBanner val = .ok { st with pol := { st.pol with banner := some (unquote val) } } := by
   have hl : ¬ val.length < 2 := by omega
-  simp +decide only [dispatch, if_true, if_false, hl, h1, h2]
+  simp +decide only [dispatch, dQuoted, if_true, if_false, hl, h1, h2]
 theorem dispatch_subset (st : PState) (line val : Str) :
     dispatch jl st line kSubset val = .ok (if Text.lower val == vTrue then { st with pol := { st.pol with allowSubset := true } } else st) := by
   by_cases h : Text.lower val = vTrue
-  · simp +decide only [dispatch, if_true, if_false, h, beq_self_eq_true, Bool.and_true, Bool.and_self, and_true, and_self]
+  · simp +decide only [dispatch, dFlags, if_true, if_false, h, beq_self_eq_true, Bool.and_true, Bool.and_self, and_true, and_self]
   · have h' : (Text.lower val == vTrue) = false := by simpa using h
-    simp +decide only [dispatch, if_true, if_false, h, h', Bool.and_false, and_false, Bool.false_eq_true]
+    simp +decide only [dispatch, dFlags, if_true, if_false, h, h', Bool.and_false, and_false, Bool.false_eq_true]
 theorem dispatch_larger (st : PState) (line val : Str) :
     dispatch jl st line kLarger val = .ok (if Text.lower val == vTrue then { st with pol := { st.pol with allowLarger := true } } else st) := by
   by_cases h : Text.lower val = vTrue
-  · simp +decide only [dispatch, if_true, if_false, h, beq_self_eq_true, Bool.and_true, Bool.and_self, and_true, and_self]
+  · simp +decide only [dispatch, dFlags, if_true, if_false, h, beq_self_eq_true, Bool.and_true, Bool.and_self, and_true, and_self]
   · have h' : (Text.lower val == vTrue) = false := by simpa using h
-    simp +decide only [dispatch, if_true, if_false, h, h', Bool.and_false, and_false, Bool.false_eq_true]
+    simp +decide only [dispatch, dFlags, if_true, if_false, h, h', Bool.and_false, and_false, Bool.false_eq_true]
 theorem dispatch_client (st : PState) (line val : Str) :
     dispatch jl st line kClient val = .ok (if Text.lower val == vTrue then { st with serverPolicy := false } else st) := by
   by_cases h : Text.lower val = vTrue
-  · simp +decide only [dispatch, if_true, if_false, h, beq_self_eq_true, Bool.and_true, Bool.and_self, and_true, and_self]
+  · simp +decide only [dispatch, dFlags, if_true, if_false, h, beq_self_eq_true, Bool.and_true, Bool.and_self, and_true, and_self]
   · have h' : (Text.lower val == vTrue) = false := by simpa using h
-    simp +decide only [dispatch, if_true, if_false, h, h', Bool.and_false, and_false, Bool.false_eq_true]
+    simp +decide only [dispatch, dFlags, if_true, if_false, h, h', Bool.and_false, and_false, Bool.false_eq_true]
 theorem dispatch_hostKeySizes (st : PState) (line val : Str) (j : JV) (m : Option (List (Str × HKS))) (hj : jl val = .ok j) (hm : hksOfJsonTop j = .ok m) :
     dispatch jl st line kHostKeySizes val = .ok { st with pol := { st.pol with hostkeySizes := m } } := by
-  simp +decide only [dispatch, if_true, if_false, hj, hm]
+  simp +decide only [dispatch, dHostKeySizes, dDhSizes, if_true, if_false, hj, hm]
 theorem dispatch_dhSizes (st : PState) (line val : Str) (j : JV) (m : Option (List (Str × Nat))) (hj : jl val = .ok j) (hm : dhOfJson j = .ok m) :
     dispatch jl st line kDhSizes val = .ok { st with pol := { st.pol with dhSizes := m } } := by
-  simp +decide only [dispatch, if_true, if_false, hj, hm]
+  simp +decide only [dispatch, dHostKeySizes, dDhSizes, if_true, if_false, hj, hm]
 
 theorem parseLines_skip (st : PState) (l : Str) (ls : List Str) (h : Skipped l) : parseLines jl st (l :: ls) = parseLines jl st ls := by
   simp [parseLines, step_skipped jl st l h]
@@ -1163,5 +1163,538 @@ theorem parseLines_createLines (source today : Str) (peer : Peer) (ca : Bool) (h
 
 theorem loadsOk_loads (peer : Peer) : LoadsOk Json.loads peer :=
   ⟨fun h => loads_dumpHostKeys _ h, fun h => loads_dumpDh _ h⟩
+
+/-! ### the text: its lines contain no newline -/
+
+def NoNl (l : Str) : Prop := '\n' ∉ l
+instance (l : Str) : Decidable (NoNl l) := by unfold NoNl; infer_instance
+
+theorem noNl_nil : NoNl [] := by simp [NoNl]
+theorem noNl_append {a b : Str} (ha : NoNl a) (hb : NoNl b) : NoNl (a ++ b) := by
+  unfold NoNl at *; simp [ha, hb]
+theorem noNl_cons {c : Char} {l : Str} (hc : c ≠ '\n') (hl : NoNl l) : NoNl (c :: l) := by
+  unfold NoNl at *; simp [hl, Ne.symm hc]
+
+theorem noNl_join (sep : Str) (ls : List Str) (hsep : NoNl sep) (h : ∀ l ∈ ls, NoNl l) : NoNl (Text.join sep ls) := by
+  induction ls with
+  | nil => exact noNl_nil
+  | cons l rest ih =>
+    cases rest with
+    | nil => simpa [Text.join] using h l (by simp)
+    | cons l2 r2 =>
+      simp only [Text.join]
+      exact noNl_append (noNl_append (h l (by simp)) hsep) (ih (fun x hx => h x (List.mem_cons_of_mem _ hx)))
+
+theorem noNl_natToStr (n : Nat) : NoNl (Text.natToStr n) := by
+  intro h
+  have := natToStr_digits n _ h
+  exact absurd this (by decide)
+
+theorem hexDigit_ne_nl (k : Nat) : hexDigit k ≠ '\n' := by
+  have h : ∀ j, j < 16 → hexDigit j ≠ '\n' := by decide
+  have e : hexDigit k = hexDigit (k % 16) := by unfold hexDigit; rw [Nat.mod_mod]
+  rw [e]; exact h _ (Nat.mod_lt _ (by decide))
+
+theorem noNl_hex4 (n : Nat) : NoNl (hex4 n) := by
+  unfold hex4
+  exact noNl_cons (hexDigit_ne_nl _) (noNl_cons (hexDigit_ne_nl _) (noNl_cons (hexDigit_ne_nl _) (noNl_cons (hexDigit_ne_nl _) noNl_nil)))
+
+theorem noNl_escJ (c : Char) : NoNl (escJ c) := by
+  unfold escJ
+  split; · decide
+  split; · decide
+  split; · decide
+  split; · decide
+  split; · decide
+  split; · decide
+  split; · decide
+  split
+  · next h1 h2 h3 h4 h5 h6 h7 h =>
+    exact noNl_cons h3 noNl_nil
+  split
+  · exact noNl_cons (by decide) (noNl_cons (by decide) (noNl_hex4 _))
+  · exact noNl_cons (by decide) (noNl_cons (by decide) (noNl_append (noNl_hex4 _) (noNl_cons (by decide) (noNl_cons (by decide) (noNl_hex4 _)))))
+
+theorem noNl_escBody (v : Str) : NoNl (escBody v) := by
+  induction v with
+  | nil => exact noNl_nil
+  | cons c cs ih => exact noNl_append (noNl_escJ c) ih
+
+theorem noNl_dumpStr (v : Str) : NoNl (dumpStr v) :=
+  noNl_cons (by decide) (noNl_append (noNl_escBody v) (noNl_cons (by decide) noNl_nil))
+
+theorem noNl_dumpDict {α} (pr : α → Str) (h : ∀ a, NoNl (pr a)) (d : List (Str × α)) : NoNl (dumpDict pr d) := by
+  unfold dumpDict
+  refine noNl_cons (by decide) (noNl_append (noNl_join _ _ (by decide) ?_) (noNl_cons (by decide) noNl_nil))
+  intro l hl
+  obtain ⟨kv, _, rfl⟩ := List.mem_map.mp hl
+  exact noNl_append (noNl_append (noNl_dumpStr _) (by decide)) (h _)
+
+theorem noNl_dumpHKS (h : HKS) : NoNl (dumpHKS h) := by
+  have c : NoNl colonSep := by decide
+  have m : NoNl commaSep := by decide
+  have e : NoNl ['}'] := by decide
+  have k1 := noNl_dumpStr kHostkeySize
+  have k2 := noNl_dumpStr kCaKeyType
+  have k3 := noNl_dumpStr kCaKeySize
+  unfold dumpHKS
+  split
+  · exact noNl_cons (by decide) (noNl_append (noNl_append (noNl_append k1 c) (noNl_natToStr _)) e)
+  · have n1 := noNl_natToStr h.size
+    have n2 := noNl_natToStr h.caSize
+    have d := noNl_dumpStr h.caType
+    unfold NoNl at *
+    simp only [List.mem_cons, List.mem_append, not_or]
+    exact ⟨by decide, ⟨⟨⟨⟨⟨⟨⟨⟨⟨⟨k1, c⟩, n1⟩, m⟩, k2⟩, c⟩, d⟩, m⟩, k3⟩, c⟩, n2⟩, by decide⟩
+
+/-- what the substituted texts must not contain for the text to have the lines `createLines` lists -/
+structure WfText (source today : Str) (peer : Peer) : Prop where
+  source : NoNl source
+  today : NoNl today
+  banner : NoNl peer.bannerStr
+  comp : ∀ n ∈ peer.comp, NoNl n
+  key : ∀ n ∈ peer.key, NoNl n
+  kex : ∀ n ∈ peer.kex, NoNl n
+  enc : ∀ n ∈ peer.enc, NoNl n
+  mac : ∀ n ∈ peer.mac, NoNl n
+
+theorem noNl_listVal (b : Bool) (names : List Str) (h : ∀ n ∈ names, NoNl n) : NoNl (listVal b names) := by
+  unfold listVal
+  split
+  · exact noNl_join _ _ (by decide) h
+  · decide
+
+theorem noNl_kv (key val : Str) (hk : NoNl key) (hv : NoNl val) : NoNl (kv key val) :=
+  noNl_append (noNl_append hk (by decide)) hv
+
+theorem createLines_noNl (source today : Str) (peer : Peer) (ca : Bool) (hw : WfText source today peer) :
+    ∀ l ∈ createLines source today peer ca, NoNl l := by
+  have hs := hw.source
+  have ht := hw.today
+  have q : NoNl ['"'] := by decide
+  unfold createLines clientChunk hostKeysChunk dhChunk nameVal
+  simp only [List.forall_mem_append, List.forall_mem_cons, List.forall_mem_nil, and_true]  -- a conjunction, one line each
+  have e0 : ∀ x : Str, x ∈ ([] : List Str) → NoNl x := fun x hx => by simp at hx
+  and_intros
+  all_goals try decide
+  all_goals try exact e0
+  · exact noNl_cons (by decide) (noNl_append (noNl_append (noNl_append (noNl_append (by decide) hs) (by decide)) ht) (by decide))
+  · intro x hx
+    split at hx
+    · simp only [List.mem_cons, List.mem_nil_iff, or_false] at hx
+      rcases hx with rfl | rfl | rfl <;> decide
+    · simp at hx
+  · exact noNl_kv _ _ (by decide) (noNl_cons (by decide) (noNl_append (noNl_append (noNl_append (noNl_append (noNl_append (by decide) hs) (by decide)) ht) (by decide)) q))
+  · exact noNl_cons (by decide) (noNl_append (noNl_append (by decide) hw.banner) q)
+  · exact noNl_cons (by decide) (noNl_append (by decide) (noNl_listVal _ _ hw.comp))
+  · intro x hx
+    split at hx
+    · simp only [List.mem_cons, List.mem_nil_iff, or_false] at hx
+      rcases hx with rfl | rfl | rfl
+      · decide
+      · decide
+      · exact noNl_kv _ _ (by decide) (noNl_dumpDict _ noNl_dumpHKS _)
+    · simp at hx
+  · intro x hx
+    split at hx
+    · simp only [List.mem_cons, List.mem_nil_iff, or_false] at hx
+      rcases hx with rfl | rfl | rfl
+      · decide
+      · decide
+      · exact noNl_kv _ _ (by decide) (noNl_dumpDict _ noNl_natToStr _)
+    · simp at hx
+  · exact noNl_kv _ _ (by decide) (noNl_listVal _ _ hw.key)
+  · exact noNl_kv _ _ (by decide) (noNl_listVal _ _ hw.kex)
+  · exact noNl_kv _ _ (by decide) (noNl_listVal _ _ hw.enc)
+  · exact noNl_kv _ _ (by decide) (noNl_listVal _ _ hw.mac)
+
+/-! ### `Policy.create` followed by the parser -/
+
+theorem lines_of_create (source today : Str) (peer : Peer) (ca : Bool) (ht : WfText source today peer) :
+    Text.splitOn '\n' (create source today peer ca) = createLines source today peer ca :=
+  splitOn_join_newline '\n' _ (by simp [createLines]) (createLines_noNl source today peer ca ht)
+
+/-- the text path for any `json.loads` that reads the two dumped maps back -/
+theorem parse_create_with (jl : Str → Except JErr JV) (source today : Str) (peer : Peer) (ca : Bool)
+    (hw : WfPeer peer) (ht : WfText source today peer) (hl : LoadsOk jl peer) :
+    parseWith jl (create source today peer ca)
+      = .ok { name := madeName source today, version := ['1'], pol := policyOf peer, serverPolicy := !ca, warnings := 0 } := by
+  unfold parseWith
+  rw [lines_of_create source today peer ca ht, parseLines_createLines jl source today peer ca hw hl]
+  rfl
+
+/-- **`parse_create`: loading the text `-M` writes gives exactly the policy of the peer** — every well-formed peer, all names
+    (with `=`, non-ASCII, quotes, …), any size maps; the name is `Custom Policy (based on <source> on <date>)` (unescaped), the version `1`. -/
+theorem parse_create (source today : Str) (peer : Peer) (hw : WfPeer peer) (ht : WfText source today peer) :
+    parse (create source today peer false)
+      = .ok { name := madeName source today, version := ['1'], pol := policyOf peer, serverPolicy := true, warnings := 0 } :=
+  parse_create_with Json.loads source today peer false hw ht (loadsOk_loads peer)
+
+/-- a client audit (`-M` with `-c`) gives the same policy, marked as a client policy -/
+theorem parse_create_client (source today : Str) (peer : Peer) (hw : WfPeer peer) (ht : WfText source today peer) :
+    parse (create source today peer true)
+      = .ok { name := madeName source today, version := ['1'], pol := policyOf peer, serverPolicy := false, warnings := 0 } :=
+  parse_create_with Json.loads source today peer true hw ht (loadsOk_loads peer)
+
+theorem unescQuote_id (l : Str) (h : '\\' ∉ l) : unescQuote l = l := by
+  induction l using unescQuote.induct with
+  | case1 => rfl
+  | case2 c => rfl
+  | case3 c d rest hc ih => exact absurd (by simp [hc.1]) h
+  | case4 c d rest hc ih =>
+    have : '\\' ∉ d :: rest := fun hm => h (List.mem_cons_of_mem _ hm)
+    simp [unescQuote, hc, ih this]
+
+theorem unescNl_id (l : Str) (h : '\\' ∉ l) : unescNl l = l := by
+  induction l using unescNl.induct with
+  | case1 => rfl
+  | case2 c => rfl
+  | case3 c d rest hc ih => exact absurd (by simp [hc.1]) h
+  | case4 c d rest hc ih =>
+    have : '\\' ∉ d :: rest := fun hm => h (List.mem_cons_of_mem _ hm)
+    simp [unescNl, hc, ih this]
+
+/-- without a backslash in the target name the loaded policy name is literally `Custom Policy (based on … on …)` -/
+theorem madeName_plain (source today : Str) (hs : '\\' ∉ source) (ht : '\\' ∉ today) : madeName source today = nameVal source today := by
+  have h : '\\' ∉ nameVal source today := by
+    unfold nameVal
+    simp only [List.mem_append, not_or]
+    exact ⟨⟨⟨⟨by decide, hs⟩, by decide⟩, ht⟩, by decide⟩
+  unfold madeName
+  rw [unescQuote_id _ h, unescNl_id _ h]
+
+/-- **C05 for the text path: the policy file made from a target, loaded back, passes on that target with no errors** -/
+theorem made_text_policy_passes (source today : Str) (peer : Peer) (ca : Bool) (hw : WfPeer peer) (ht : WfText source today peer) :
+    ∃ r, parse (create source today peer ca) = .ok r ∧ (evaluate r.pol peer []).1 = true ∧ (evaluate r.pol peer []).2 = [] := by
+  refine ⟨_, parse_create_with Json.loads source today peer ca hw ht (loadsOk_loads peer), ?_⟩
+  exact C05.made_policy_verdict peer
+
+/-- **… and fails, naming the field, on a target whose key-exchange list differs** (likewise host keys, ciphers, MACs) -/
+theorem made_text_policy_drift_kex (source today : Str) (peer peer' : Peer) (ca : Bool) (hw : WfPeer peer) (ht : WfText source today peer)
+    (hk : peer'.hasKex = true) (hd : peer'.kex ≠ peer.kex) :
+    ∃ r, parse (create source today peer ca) = .ok r ∧ (evaluate r.pol peer' []).1 = false ∧
+      ∃ e ∈ (evaluate r.pol peer' []).2, e.field = s "Key exchanges" ∧ e.expectedRequired = peer.kex ∧ e.actual = peer'.kex :=
+  ⟨_, parse_create_with Json.loads source today peer ca hw ht (loadsOk_loads peer), C05.drift_kex peer peer' hk hd⟩
+
+theorem made_text_policy_drift_hostkeys (source today : Str) (peer peer' : Peer) (ca : Bool) (hw : WfPeer peer) (ht : WfText source today peer)
+    (hk : peer'.hasKex = true) (hd : peer'.key ≠ peer.key) :
+    ∃ r, parse (create source today peer ca) = .ok r ∧ (evaluate r.pol peer' []).1 = false ∧
+      ∃ e ∈ (evaluate r.pol peer' []).2, e.field = s "Host keys" ∧ e.expectedRequired = peer.key ∧ e.actual = peer'.key :=
+  ⟨_, parse_create_with Json.loads source today peer ca hw ht (loadsOk_loads peer), C05.drift_hostkeys peer peer' hk hd⟩
+
+theorem made_text_policy_drift_ciphers (source today : Str) (peer peer' : Peer) (ca : Bool) (hw : WfPeer peer) (ht : WfText source today peer)
+    (hk : peer'.hasKex = true) (hd : peer'.enc ≠ peer.enc) :
+    ∃ r, parse (create source today peer ca) = .ok r ∧ (evaluate r.pol peer' []).1 = false ∧
+      ∃ e ∈ (evaluate r.pol peer' []).2, e.field = s "Ciphers" ∧ e.expectedRequired = peer.enc ∧ e.actual = peer'.enc :=
+  ⟨_, parse_create_with Json.loads source today peer ca hw ht (loadsOk_loads peer), C05.drift_ciphers peer peer' hk hd⟩
+
+theorem made_text_policy_drift_macs (source today : Str) (peer peer' : Peer) (ca : Bool) (hw : WfPeer peer) (ht : WfText source today peer)
+    (hk : peer'.hasKex = true) (hd : peer'.mac ≠ peer.mac) :
+    ∃ r, parse (create source today peer ca) = .ok r ∧ (evaluate r.pol peer' []).1 = false ∧
+      ∃ e ∈ (evaluate r.pol peer' []).2, e.field = s "MACs" ∧ e.expectedRequired = peer.mac ∧ e.actual = peer'.mac :=
+  ⟨_, parse_create_with Json.loads source today peer ca hw ht (loadsOk_loads peer), C05.drift_macs peer peer' hk hd⟩
+
+/-- sizes: a different host-key size, CA type / size or modulus size (both measured) fails the loaded text policy -/
+theorem made_text_policy_drift_sizes (source today : Str) (peer peer' : Peer) (ca : Bool) (hw : WfPeer peer) (ht : WfText source today peer)
+    (hk : peer'.hasKex = true) :
+    ∃ r, parse (create source today peer ca) = .ok r ∧
+      (∀ t a a', lookup peer.hostKeys t = some a → lookup peer'.hostKeys t = some a' → a'.size ≠ a.size → (evaluate r.pol peer' []).1 = false) ∧
+      (∀ t a a', lookup peer.hostKeys t = some a → lookup peer'.hostKeys t = some a' → (a.caType ≠ [] ∧ 0 < a.caSize) →
+          (a'.caType ≠ a.caType ∨ a'.caSize ≠ a.caSize) → (evaluate r.pol peer' []).1 = false) ∧
+      (∀ t a a', lookup peer.dhSizes t = some a → lookup peer'.dhSizes t = some a' → a' ≠ a → (evaluate r.pol peer' []).1 = false) :=
+  ⟨_, parse_create_with Json.loads source today peer ca hw ht (loadsOk_loads peer),
+    fun t a a' h1 h2 hd => C05.drift_hostkey_size peer peer' hk t a a' h1 h2 hd,
+    fun t a a' h1 h2 hca hd => C05.drift_ca peer peer' hk t a a' h1 h2 hca hd,
+    fun t a a' h1 h2 hd => C05.drift_modulus peer peer' hk t a a' h1 h2 hd⟩
+
+/-! ### what a line cannot change: sticky flags, required name / version, comments -/
+
+/-- what a step leaves untouched: the two flags and `client policy` once set, and the name / version unless the line is that directive -/
+def Frame (key : Str) (st st' : PState) : Prop :=
+  (st.pol.allowLarger = true → st'.pol.allowLarger = true) ∧ (st.pol.allowSubset = true → st'.pol.allowSubset = true) ∧
+  (st.serverPolicy = false → st'.serverPolicy = false) ∧
+  (key ≠ kName → st'.name = st.name) ∧ (key ≠ kVersion → st'.version = st.version)
+
+theorem Frame.rfl' (key : Str) (st : PState) : Frame key st st := ⟨id, id, id, fun _ => rfl, fun _ => rfl⟩
+
+theorem frame_dQuoted (st st' : PState) (key val : Str) (h : dQuoted st key val = .ok st') : Frame key st st' := by
+  unfold dQuoted at h
+  simp only at h
+  repeat' split at h
+  all_goals (cases h <;> simp_all [Frame])
+
+theorem frame_dLegacyHostkey (st st' : PState) (key val : Str) (h : dLegacyHostkey st key val = .ok st') : Frame key st st' := by
+  unfold dLegacyHostkey at h
+  split at h
+  · cases h
+  · split at h
+    · cases h
+    · cases h; simp_all [Frame]
+
+theorem frame_dLegacyCakey (st st' : PState) (key val : Str) (h : dLegacyCakey st key val = .ok st') : Frame key st st' := by
+  unfold dLegacyCakey at h
+  split at h
+  · cases h
+  · split at h
+    · cases h
+    · split at h
+      · cases h
+      · cases h; simp_all [Frame]
+
+theorem frame_dLegacyDh (st st' : PState) (key val : Str) (h : dLegacyDh st key val = .ok st') : Frame key st st' := by
+  unfold dLegacyDh at h
+  split at h
+  · cases h
+  · split at h
+    · cases h
+    · cases h; simp_all [Frame]
+
+theorem frame_dHostKeySizes (st st' : PState) (key val : Str) (h : dHostKeySizes jl st val = .ok st') : Frame key st st' := by
+  unfold dHostKeySizes at h
+  cases hj : jl val with
+  | error e => rw [hj] at h; cases e <;> cases h
+  | ok j =>
+    rw [hj] at h
+    simp only at h
+    cases hm : hksOfJsonTop j with
+    | error e => rw [hm] at h; cases h
+    | ok m => rw [hm] at h; cases h; simp_all [Frame]
+
+theorem frame_dDhSizes (st st' : PState) (key val : Str) (h : dDhSizes jl st val = .ok st') : Frame key st st' := by
+  unfold dDhSizes at h
+  cases hj : jl val with
+  | error e => rw [hj] at h; cases e <;> cases h
+  | ok j =>
+    rw [hj] at h
+    simp only at h
+    cases hm : dhOfJson j with
+    | error e => rw [hm] at h; cases h
+    | ok m => rw [hm] at h; cases h; simp_all [Frame]
+
+theorem frame_dFlags (st : PState) (key val : Str) : Frame key st (dFlags st key val) := by
+  unfold dFlags
+  split
+  · simp_all [Frame]
+  split
+  · simp_all [Frame]
+  split
+  · simp_all [Frame]
+  · exact Frame.rfl' key st
+
+theorem dispatch_frame (st st' : PState) (line key val : Str) (h : dispatch jl st line key val = .ok st') : Frame key st st' := by
+  unfold dispatch at h
+  by_cases c0 : (!keyOk key) = true
+  · rw [if_pos c0] at h; cases h
+  rw [if_neg c0] at h
+  by_cases c1 : key = kName ∨ key = kBanner
+  · rw [if_pos c1] at h; exact frame_dQuoted st st' key val h
+  rw [if_neg c1] at h
+  by_cases c2 : key = kVersion
+  · rw [if_pos c2] at h; cases h; simp_all [Frame]
+  rw [if_neg c2] at h
+  by_cases c3 : key = kCompressions
+  · rw [if_pos c3] at h; cases h; simp_all [Frame]
+  rw [if_neg c3] at h
+  by_cases c4 : key = kHostKeys
+  · rw [if_pos c4] at h; cases h; simp_all [Frame]
+  rw [if_neg c4] at h
+  by_cases c5 : key = kOptionalHostKeys
+  · rw [if_pos c5] at h; cases h; simp_all [Frame]
+  rw [if_neg c5] at h
+  by_cases c6 : key = kKex
+  · rw [if_pos c6] at h; cases h; simp_all [Frame]
+  rw [if_neg c6] at h
+  by_cases c7 : key = kCiphers
+  · rw [if_pos c7] at h; cases h; simp_all [Frame]
+  rw [if_neg c7] at h
+  by_cases c8 : key = kMacs
+  · rw [if_pos c8] at h; cases h; simp_all [Frame]
+  rw [if_neg c8] at h
+  by_cases c9 : Text.startsWith key pfxHostkey = true
+  · rw [if_pos c9] at h; exact frame_dLegacyHostkey st st' key val h
+  rw [if_neg c9] at h
+  by_cases c10 : Text.startsWith key pfxCakey = true
+  · rw [if_pos c10] at h; exact frame_dLegacyCakey st st' key val h
+  rw [if_neg c10] at h
+  by_cases c11 : key = kHostKeySizes
+  · rw [if_pos c11] at h; exact frame_dHostKeySizes jl st st' key val h
+  rw [if_neg c11] at h
+  by_cases c12 : Text.startsWith key pfxDh = true
+  · rw [if_pos c12] at h; exact frame_dLegacyDh st st' key val h
+  rw [if_neg c12] at h
+  by_cases c13 : key = kDhSizes
+  · rw [if_pos c13] at h; exact frame_dDhSizes jl st st' key val h
+  rw [if_neg c13] at h
+  cases h; exact frame_dFlags st key val
+
+theorem step_frame (st st' : PState) (l : Str) (h : step jl st l = .ok st') :
+    (st.pol.allowLarger = true → st'.pol.allowLarger = true) ∧ (st.pol.allowSubset = true → st'.pol.allowSubset = true) ∧
+    (st.serverPolicy = false → st'.serverPolicy = false) ∧
+    ((∀ k v, splitEq1 (Text.stripU l) = some (k, v) → Text.stripU k ≠ kName) → st'.name = st.name) ∧
+    ((∀ k v, splitEq1 (Text.stripU l) = some (k, v) → Text.stripU k ≠ kVersion) → st'.version = st.version) := by
+  unfold step at h
+  simp only at h
+  split at h
+  · cases h; exact ⟨id, id, id, fun _ => rfl, fun _ => rfl⟩
+  · split at h
+    · cases h
+    · next k v hkv =>
+      obtain ⟨f1, f2, f3, f4, f5⟩ := dispatch_frame jl st st' _ _ _ h
+      exact ⟨f1, f2, f3, fun hn => f4 (hn k v hkv), fun hn => f5 (hn k v hkv)⟩
+
+/-- **the boolean directives are sticky**: once `allow_larger_keys` / `allow_algorithm_subset_and_reordering` is true or the policy is a client
+    policy, no later line (in particular not `… = false`) resets it — this is what the code does -/
+theorem flags_sticky (st st' : PState) (lines : List Str) (h : parseLines jl st lines = .ok st') :
+    (st.pol.allowLarger = true → st'.pol.allowLarger = true) ∧ (st.pol.allowSubset = true → st'.pol.allowSubset = true) ∧
+    (st.serverPolicy = false → st'.serverPolicy = false) := by
+  induction lines generalizing st with
+  | nil => simp only [parseLines] at h; cases h; exact ⟨id, id, id⟩
+  | cons l ls ih =>
+    simp only [parseLines] at h
+    cases hs : step jl st l with
+    | error e => rw [hs] at h; cases h
+    | ok st1 =>
+      rw [hs] at h
+      obtain ⟨a1, a2, a3, _, _⟩ := step_frame jl st st1 l hs
+      obtain ⟨b1, b2, b3⟩ := ih st1 h
+      exact ⟨fun x => b1 (a1 x), fun x => b2 (a2 x), fun x => b3 (a3 x)⟩
+
+/-- is `l` a directive line with key `key`? -/
+def IsDirective (key l : Str) : Prop := ∃ k v, splitEq1 (Text.stripU l) = some (k, v) ∧ Text.stripU k = key
+
+theorem parseLines_name_version (st st' : PState) (lines : List Str) (h : parseLines jl st lines = .ok st') :
+    ((∀ l ∈ lines, ¬ IsDirective kName l) → st'.name = st.name) ∧ ((∀ l ∈ lines, ¬ IsDirective kVersion l) → st'.version = st.version) := by
+  induction lines generalizing st with
+  | nil => simp only [parseLines] at h; cases h; exact ⟨fun _ => rfl, fun _ => rfl⟩
+  | cons l ls ih =>
+    simp only [parseLines] at h
+    cases hs : step jl st l with
+    | error e => rw [hs] at h; cases h
+    | ok st1 =>
+      rw [hs] at h
+      obtain ⟨_, _, _, a4, a5⟩ := step_frame jl st st1 l hs
+      obtain ⟨b1, b2⟩ := ih st1 h
+      constructor
+      · intro hn
+        rw [b1 (fun x hx => hn x (List.mem_cons_of_mem _ hx))]
+        exact a4 (fun k v hkv hk => hn l (by simp) ⟨k, v, hkv, hk⟩)
+      · intro hn
+        rw [b2 (fun x hx => hn x (List.mem_cons_of_mem _ hx))]
+        exact a5 (fun k v hkv hk => hn l (by simp) ⟨k, v, hkv, hk⟩)
+
+/-- **a text without a `name` directive is never accepted** (it ends in `The policy does not have a name field` unless a line fails first) -/
+theorem parse_missing_name (text : Str) (h : ∀ l ∈ Text.splitOn '\n' text, ¬ IsDirective kName l) : ∀ r, parseWith jl text ≠ .ok r := by
+  intro r hr
+  unfold parseWith at hr
+  cases hp : parseLines jl {} (Text.splitOn '\n' text) with
+  | error e => rw [hp] at hr; cases hr
+  | ok st =>
+    rw [hp] at hr
+    have := (parseLines_name_version jl {} st _ hp).1 h
+    simp only [finish, this] at hr
+    cases hr
+
+/-- **a text without a `version` directive is never accepted** -/
+theorem parse_missing_version (text : Str) (h : ∀ l ∈ Text.splitOn '\n' text, ¬ IsDirective kVersion l) : ∀ r, parseWith jl text ≠ .ok r := by
+  intro r hr
+  unfold parseWith at hr
+  cases hp : parseLines jl {} (Text.splitOn '\n' text) with
+  | error e => rw [hp] at hr; cases hr
+  | ok st =>
+    rw [hp] at hr
+    have hv : st.version = none := (parseLines_name_version jl {} st _ hp).2 h
+    simp only [finish] at hr
+    cases hn : st.name with
+    | none => simp only [hn] at hr; cases hr
+    | some n => simp only [hn, hv] at hr; cases hr
+
+/-- **a comment or blank line inserted anywhere in a text never changes what the text loads to** -/
+theorem parse_insert_comment_or_blank (l1 l2 : List Str) (c : Str) (hc : Skipped c) (hne : l1 ++ l2 ≠ [])
+    (h1 : ∀ l ∈ l1, '\n' ∉ l) (h2 : ∀ l ∈ l2, '\n' ∉ l) (hcn : '\n' ∉ c) :
+    parseWith jl (Text.join ['\n'] (l1 ++ c :: l2)) = parseWith jl (Text.join ['\n'] (l1 ++ l2)) := by
+  unfold parseWith
+  rw [splitOn_join_newline '\n' _ (by simp), splitOn_join_newline '\n' _ hne, parseLines_skip_comment_or_blank jl _ l1 l2 c hc]
+  · intro l hl; rcases List.mem_append.mp hl with h | h
+    · exact h1 l h
+    · exact h2 l h
+  · intro l hl; rcases List.mem_append.mp hl with h | h
+    · exact h1 l h
+    · rcases List.mem_cons.mp h with h | h
+      · rw [h]; exact hcn
+      · exact h2 l h
+
+/-! ### non-vacuity: a realistic peer satisfies the hypotheses; the model computes on concrete texts -/
+
+instance (n : Str) : Decidable (WfName n) := by unfold WfName; infer_instance
+
+instance {ε α} [DecidableEq ε] [DecidableEq α] : DecidableEq (Except ε α) := fun a b =>
+  match a, b with
+  | .ok x, .ok y => if h : x = y then isTrue (h ▸ rfl) else isFalse (fun e => by cases e; exact h rfl)
+  | .error x, .error y => if h : x = y then isTrue (h ▸ rfl) else isFalse (fun e => by cases e; exact h rfl)
+  | .ok _, .error _ => isFalse (fun e => by cases e)
+  | .error _, .ok _ => isFalse (fun e => by cases e)
+
+/-- an OpenSSH-like target with a GSS key exchange (`=` in the name), a certificate host key and a measured group-exchange modulus -/
+def peerR : Peer :=
+  { bannerStr := s "SSH-2.0-OpenSSH_9.6p1 Ubuntu-3ubuntu13.5",
+    comp := [s "none", s "zlib@openssh.com"],
+    key := [s "rsa-sha2-512", s "rsa-sha2-256", s "ecdsa-sha2-nistp256", s "ssh-ed25519", s "ssh-ed25519-cert-v01@openssh.com"],
+    kex := [s "sntrup761x25519-sha512@openssh.com", s "curve25519-sha256", s "gss-group14-sha256-toWM5Slw5Ew8Mqkay+al2g==",
+            s "diffie-hellman-group-exchange-sha256", s "kex-strict-s-v00@openssh.com"],
+    enc := [s "chacha20-poly1305@openssh.com", s "aes256-gcm@openssh.com"],
+    mac := [s "umac-128-etm@openssh.com", s "hmac-sha2-256-etm@openssh.com"],
+    hostKeys := [(s "rsa-sha2-512", { size := 3072, caType := [], caSize := 0 }), (s "ssh-ed25519", { size := 256, caType := [], caSize := 0 }),
+                 (s "ssh-ed25519-cert-v01@openssh.com", { size := 256, caType := s "ssh-rsa", caSize := 4096 })],
+    dhSizes := [(s "diffie-hellman-group-exchange-sha256", 3072)] }
+def srcR : Str := s "target.example"
+def todayR : Str := s "2026/09/29"
+
+/-- **the hypotheses of `parse_create` hold for a realistic peer** -/
+theorem realistic_peer_wf : WfPeer peerR ∧ WfText srcR todayR peerR :=
+  ⟨⟨by decide +kernel, by decide +kernel, by decide +kernel, by decide +kernel, by decide +kernel, by decide +kernel, by decide +kernel,
+    by decide +kernel, by decide +kernel, by decide +kernel, by decide +kernel⟩,
+   ⟨by decide +kernel, by decide +kernel, by decide +kernel, by decide +kernel, by decide +kernel, by decide +kernel, by decide +kernel,
+    by decide +kernel⟩⟩
+
+-- the theorem instantiated, and the same fact by running the model on the 2.6 kB text in the kernel
+example : parse (create srcR todayR peerR false)
+    = .ok { name := s "Custom Policy (based on target.example on 2026/09/29)", version := ['1'], pol := policyOf peerR, serverPolicy := true, warnings := 0 } := by
+  rw [parse_create srcR todayR peerR realistic_peer_wf.1 realistic_peer_wf.2, madeName_plain srcR todayR (by decide +kernel) (by decide +kernel)]
+  decide +kernel
+example : (parse (create srcR todayR peerR true)).toOption.map (fun r => (r.pol == policyOf peerR, r.serverPolicy, r.version)) = some (true, false, ['1']) := by
+  decide +kernel
+example : (evaluate (policyOf peerR) peerR []).1 = true := by decide +kernel
+
+-- a hand-written policy: comments, CRLF, white space around `=` and `,`, `=` inside a value, escapes, legacy and JSON sizes
+def handText : Str :=
+  s "# a policy\r\n\r\n  name   =  \"My \\\"quoted\\\" policy\"  \r\nversion = 2 = two\n" ++ s "host keys = a ,b==,  c\nhostkey_size_a = 3072\n"
+  ++ s "cakey_size_rsa-sha2-512-cert-v01@openssh.com = 4096\n" ++ s "dh_modulus_sizes = {\"g\\u00e9\": 2048}\nallow_larger_keys = TRUE\n"
+  ++ s "allow_larger_keys = false\nhost keys = x, y\n"
+example : parse handText = .ok {
+    name := s "My \"quoted\" policy", version := s "2 = two", serverPolicy := true, warnings := 2,
+    pol := { hostKeys := some [s "x", s "y"], allowLarger := true, dhSizes := some [(s "gé", 2048)],
+             hostkeySizes := some [(s "a", { size := 3072, caType := [], caSize := 0 }),
+                                   (s "rsa-sha2-512-cert-v01@openssh.com", { size := 3072, caType := s "ssh-rsa", caSize := 4096 })] } } := by
+  decide +kernel
+-- rejected shapes
+example : parse (s "name = \"x\"\nversion = 1\nhost keys a, b\n") = .error (.noEq (s "host keys a, b")) := by decide +kernel
+example : parse (s "name = \"x\"\nversion = 1\nhostkeys = a\n") = .error (.badField (s "hostkeys = a")) := by decide +kernel
+example : parse (s "name = My Policy\nversion = 1\n") = .error (.unquoted (s "name") (s "My Policy")) := by decide +kernel
+example : parse (s "name = \"x\"\nbanner = \"SSH-2.0-x\nversion = 1\n") = .error (.unquoted (s "banner") (s "\"SSH-2.0-x")) := by decide +kernel
+example : parse (s "version = 1\nhost keys = a\n") = .error .noName := by decide +kernel
+example : parse (s "name = \"x\"\n# version = 1\n") = .error .noVersion := by decide +kernel
+example : parse (s "name = \"x\"\nversion = 1\nhost_key_sizes = {\"a\": {\"hostkey_size\": 1}\n") = .error .badJson := by decide +kernel
+example : parse (s "name = \"x\"\nversion = 1\nhost_key_sizes = {\"a\": 3072}\n") = .error .typeError := by decide +kernel
+example : parse (s "name = \"x\"\nversion = 1\ncakey_size_a = 1\n") = .error .unbound := by decide +kernel
+example : parse (s "name = \"x\"\nversion = 1\nhostkey_size_a = 30x72\n") = .error (.badInt (s "30x72")) := by decide +kernel
+-- json: escapes, surrogate pairs, duplicate keys, white space
+example : (Json.loads (s "\"\\ud83d\\ude00\\u00e9\\n\"")).toOption.map (fun v => match v with | .str x => x | _ => []) = some [Char.ofNat 0x1F600, 'é', '\n'] := by decide +kernel
+example : Json.dumpStr [Char.ofNat 0x1F600, 'é', '\n', '"', '\x7f'] = s "\"\\ud83d\\ude00\\u00e9\\n\\\"\\u007f\"" := by decide +kernel
+example : dumpHostKeys peerR.hostKeys = s "{\"rsa-sha2-512\": {\"hostkey_size\": 3072}, \"ssh-ed25519\": {\"hostkey_size\": 256}, "
+    ++ s "\"ssh-ed25519-cert-v01@openssh.com\": {\"hostkey_size\": 256, " ++ s "\"ca_key_type\": \"ssh-rsa\", \"ca_key_size\": 4096}}" := by decide +kernel
+
+-- the hypotheses are needed: a name with a comma, or an empty name-list, does not survive the text (the code joins with `, ` and splits at `,`)
+example : (parse (create srcR todayR { peerR with mac := [s "a,b"] } false)).toOption.map (·.pol.macs) = some (some [s "a", s "b"]) := by decide +kernel
+example : (parse (create srcR todayR { peerR with mac := [] } false)).toOption.map (·.pol.macs) = some (some [[]]) := by decide +kernel
 
 end SshAudit.C05File
